@@ -622,4 +622,43 @@ theorem pooled_list_is_overwritten :
     deref out.1 (out.2.getD 0 0) = [2, 3] ∧
     deref (runListings true ({ cells := [] } : Heap Nat) [[3], [2, 3]]).1 0 = [3] := by decide
 
+/-! ### the friend list expires; the multi-board query answers per request entry -/
+
+/-- once the cached friend list is older than the expiry, the board's file governs — also for a caller who is still on
+the stale cached list; a list younger than the expiry governs as cached -/
+theorem expired_list_follows_file (cached inFile : Bool) :
+    (hbflFriend cached inFile true).1 = inFile ∧ (hbflFriend cached inFile false).1 = cached := by
+  simp [hbflFriend]
+
+/-- a caller taken off the friend file of a hidden, restricted board is refused by the rule once the cached list has
+expired (unless privileged or a moderator), whatever the cached list still says -/
+theorem removed_friend_refused_after_expiry (u : UserView) (b : BoardView) (r : Relation) (cached : Bool)
+    (hs : Spec.sysop u = false) (hp : (Spec.moderatorsBoard b && Spec.police u) = false) (hm : Spec.moderator u r = false)
+    (hh : Spec.hidden b = true) (hr : Spec.restricted b = true) :
+    Spec.mayRead u b { r with friend := (hbflFriend cached false true).1 } = false := by
+  have hm' : Spec.moderator u { r with friend := false } = false := by simpa [Spec.moderator] using hm
+  simp [Spec.mayRead, hbflFriend, hs, hp, hm', hh, hr]
+
+/-- the broken order, for the record: scanning the cached list before looking at its age keeps a removed friend -/
+def hbflScanFirst (cached inFile expired : Bool) : Bool := if cached then true else if expired then inFile else false
+
+theorem scan_before_expiry_keeps_removed_friend :
+    hbflScanFirst true false true = true ∧ (hbflFriend true false true).1 = false := by decide
+
+/-- bbs.IsBoardsValidUser: the answer under request entry i is the answer for entry i, whatever stands before it -/
+theorem multi_query_per_entry {ε} (answer : ε → MultiAns) (request : List ε) (i : Nat) :
+    (boardsValid answer request)[i]? = request[i]?.map answer := by
+  simp [boardsValid]
+
+/-- the broken indexing, for the record: answers stored under the index into the FILTERED request move every answer
+behind a dropped id forward — the hidden board (entry 1) receives the public board's `valid` -/
+def boardsValidShifted {ε} (answer : ε → MultiAns) (request : List ε) : List MultiAns :=
+  let kept := (request.map answer).filter (· != .none)
+  kept ++ List.replicate (request.length - kept.length) .none
+
+theorem filtered_index_misattributes :
+    let answer : Nat → MultiAns := fun e => if e = 0 then .none else if e = 1 then .invalid else .valid   -- stale id, hidden, public
+    boardsValidShifted answer [0, 1, 2] = [.invalid, .valid, .none] ∧ boardsValid answer [0, 1, 2] = [.none, .invalid, .valid] := by
+  decide
+
 end PttVerif.C07.Props
